@@ -204,6 +204,17 @@ Definition codec_index_of (attrs : list tokens) : option string :=
      | _ :: l' => go l'
      end) attrs.
 
+(** [Cow] is transparent (one level, as scale-info registers it) *)
+Definition uncow (r : registry) (id : N) : N :=
+  match resolve r id with
+  | Some t =>
+      match path_ident (t_path t), t_params t with
+      | Some "Cow", p0 :: _ => match tp_ty p0 with Some i => i | None => id end
+      | _, _ => id
+      end
+  | None => id
+  end.
+
 Section Faithful.
   Variable r : registry.
   Variable e : fenv.
@@ -273,7 +284,7 @@ Section Faithful.
                      | None => None
                      | Some t' =>
                          let compact_marked := has_attr compact_attr_toks (pf_attrs pf) in
-                         let fid := f_ty f in
+                         let fid := uncow r (f_ty f) in
                          let step :=
                            match resolve r fid with
                            | Some fty =>
